@@ -103,7 +103,12 @@ static void big_case(const BigArr &cs, pbt::Ctx &ctx)
   const u128 dx = (u128)cs.dx, dy = (u128)cs.dy, dz = (u128)cs.dz, total = dx * dy * dz;
   PBT_ASSERT_MSG(cs.dx >= 1 && cs.dy >= 1 && cs.dz >= 1 && total <= MAX_CELLS, "case: extent out of range");
   Mapping m((size_t)total * sizeof(T));
-  PBT_ASSERT_MSG(m.region != MAP_FAILED, "mmap of " << (ull)total * sizeof(T) << " bytes failed: " << strerror(errno));
+  if (m.region == MAP_FAILED) {
+    // an environment that refuses the sparse mapping (RLIMIT_AS, overcommit policy) says nothing about rkcommon:
+    // the case is skipped and counted; the floor of the check makes a run without any big array VACUOUS
+    ctx.label("mmap-refused-case-skipped");
+    return;
+  }
   T *raw = (T *)m.base;
   const vec3i dims(cs.dx, cs.dy, cs.dz);
   ActualArray3D<T> arr(dims, raw);
